@@ -389,6 +389,37 @@ func implFixPE(f []string, tmp string) string {
 	return fmt.Sprintf("ok DIFF %x %x", got, want)
 }
 
+// fixpehex <file>: the real FixPEChecksum on a generated PE-like file; prints the offset and the
+// four bytes it stored there
+func implFixPEHex(f []string, tmp string) string {
+	d := hx.MustUnHex(f[0])
+	p := filepath.Join(tmp, "fixhex.exe")
+	if err := os.WriteFile(p, d, 0600); err != nil {
+		return "err io"
+	}
+	defer os.Remove(p)
+	fh, err := os.OpenFile(p, os.O_RDWR, 0)
+	if err != nil {
+		return "err io"
+	}
+	defer fh.Close()
+	if err := authenticode.FixPEChecksum(fh); err != nil {
+		switch {
+		case err.Error() == "not a PE file":
+			return "err not-pe"
+		case err == io.EOF || err == io.ErrUnexpectedEOF:
+			return "err short"
+		}
+		return "err other"
+	}
+	pos := int64(binary.LittleEndian.Uint32(d[0x3c:])) + 88
+	got := make([]byte, 4)
+	if _, err := fh.ReadAt(got, pos); err != nil {
+		return "err io"
+	}
+	return fmt.Sprintf("ok %d %x", pos, got)
+}
+
 // ---------------------------------------------------------------------------------------------
 
 func implSelEnc(f []string) string {
@@ -1086,6 +1117,8 @@ func Impl() {
 			return implCksum(f[1:])
 		case "fixpe":
 			return implFixPE(f[1:], tmp)
+		case "fixpehex":
+			return implFixPEHex(f[1:], tmp)
 		case "selenc":
 			return implSelEnc(f[1:])
 		case "xport":
